@@ -1,47 +1,13 @@
 ------------------------------ MODULE GroupRun ------------------------------
 (***************************************************************************)
-(* The joint run machine of a named-paths group: the members are concrete  *)
-(* csvpaths (each one a Run.tla machine over the same file) and the        *)
-(* CsvPaths instance coordinates them (csvpath/csvpaths.py: collect_paths  *)
-(* / next_paths / fast_forward_paths - member-major - and next_by_line -   *)
-(* line-major), including the cross-path signals stop_all(), fail_all(),   *)
-(* skip_all() and advance_all() that Group.tla only has as a negative      *)
-(* control.                                                                *)
-(*                                                                         *)
-(* The machine is deterministic.  Seek moves the coordinator to the next   *)
-(* member/record pair for which CsvPath._consider_line is called, applying *)
-(* the coordinator's rules to every member it passes over; Consume binds   *)
-(* one recorded _consider_line event to Run!Step of that member and        *)
-(* compares every logged field (Run!Diff).  One case per line of the batch *)
-(* (env TRACE_FILE):                                                       *)
-(*   [tid, kind ("serial"|"byline"), allAgree, file, members, events,      *)
-(*    final]                                                               *)
-(*   members[m] = [prog, cfg]                                              *)
-(*   events[i]  = the i-th _consider_line call in global order: the member *)
-(*                index m plus the fields of a RunTrace event              *)
-(*   final      = [started, members[m] = [valid, vars, match_count,        *)
-(*                 scan_count, stopped], yielded, all_valid]               *)
-(*                                                                         *)
-(* Coordinator rules (IMPL = mirrors the code, the documentation being the *)
-(* functions' docstrings only):                                            *)
-(*  serial  before a member starts: stop_all => the run ends (later        *)
-(*          members never start); fail_all => the member starts invalid.   *)
-(*          skip_all/advance_all act on the executing member only.         *)
-(*          IMPL: only next_paths looks at the signals (Case.coordinated); *)
-(*          collect_paths and fast_forward_paths ignore them.              *)
-(*  byline  at every record, for every member in group order: fail_all =>  *)
-(*          invalid; stop_all => stopped, passed over; skip_all (this      *)
-(*          record only) => passed over, its line monitor moves on;        *)
-(*          advance_all(n) (this record only) => its advance becomes at    *)
-(*          least n; a stopped member is passed over.  A record is handed  *)
-(*          to the caller iff the members that considered it agree (any /  *)
-(*          all of them; no member => allAgree).  The run ends at the end  *)
-(*          of the record at which the number of members that stopped      *)
-(*          while considering a record reaches the group size, else at the *)
-(*          end of the file (IMPL: members stopped by stop_all are not     *)
-(*          counted).                                                      *)
+(* Trace validation of recorded joint runs against GroupMachine.tla        *)
+(* (see there for the case format and the coordinator rules): Consume      *)
+(* binds one recorded _consider_line call to Run!Step of the member the    *)
+(* coordinator is at and compares every logged field (Run!Diff); Finish    *)
+(* compares the members' final states, the lines handed to the caller and  *)
+(* the run manifest's all_valid.                                           *)
 (***************************************************************************)
-EXTENDS Run, Json, IOUtils, TLCExt
+EXTENDS GroupMachine, Json, IOUtils, TLCExt
 
 Traces == ndJsonDeserialize(IOEnv.TRACE_FILE)
 
@@ -49,52 +15,12 @@ VARIABLES tid, G, i, verdict, detail
 gvars == <<tid, G, i, verdict, detail>>
 
 Case == Traces[tid]
-NM == Len(Case.members)
-NRec == Len(Case.file)
-MCase(m) == [tid |-> Case.tid, prog |-> Case.members[m].prog, cfg |-> Case.members[m].cfg, file |-> Case.file]
-
-MergeSig(a, b) == [stop |-> a.stop \/ b.stop, fail |-> a.fail \/ b.fail, skip |-> a.skip \/ b.skip,
-                   adv |-> IF b.adv > a.adv THEN b.adv ELSE a.adv]
-ClearSig(S) == [S EXCEPT !.st.sig = NoSig]
-Invalidate(S) == [S EXCEPT !.st.valid = FALSE]
-
-\* ---- member-major runs ------------------------------------------------------------------------------
-\* g.m is the member that is running; started counts the members that were started
-RECURSIVE SerialSeek(_)
-SerialSeek(g) ==
-  IF g.S[g.m].pc = "iter" THEN g
-  ELSE IF g.m = NM \/ (Case.coordinated /\ g.sig.stop) THEN [g EXCEPT !.pc = "end"]
-  ELSE LET n == g.m + 1
-           Sn == IF Case.coordinated /\ g.sig.fail THEN Invalidate(g.S[n]) ELSE g.S[n]
-       IN SerialSeek([g EXCEPT !.m = n, !.S[n] = Sn, !.started = n])
-
-\* ---- line-major runs --------------------------------------------------------------------------------
-RECURSIVE LineSeek(_)
-LineSeek(g) ==
-  IF g.k >= NRec THEN [g EXCEPT !.pc = "end"]
-  ELSE IF g.m > NM THEN          \* the end of record k
-         LET y == IF g.keep THEN Append(g.yielded, g.k) ELSE g.yielded IN
-           IF g.nstopped = NM THEN [g EXCEPT !.pc = "end", !.yielded = y]
-           ELSE LineSeek([g EXCEPT !.k = g.k + 1, !.m = 1, !.yielded = y, !.keep = Case.allAgree,
-                                   !.sig.skip = FALSE, !.sig.adv = 0])
-  ELSE LET m == g.m
-           S1 == IF g.sig.fail THEN Invalidate(g.S[m]) ELSE g.S[m]
-       IN IF g.sig.stop THEN LineSeek([g EXCEPT !.S[m] = [S1 EXCEPT !.st.stopped = TRUE, !.pc = "done"], !.m = m + 1])
-          ELSE IF g.sig.skip THEN LineSeek([g EXCEPT !.S[m] = [S1 EXCEPT !.k = g.k + 1], !.m = m + 1])
-          ELSE LET S2 == IF g.sig.adv > S1.st.advance THEN [S1 EXCEPT !.st.advance = g.sig.adv] ELSE S1
-               IN IF S2.st.stopped \/ S2.pc = "done" THEN LineSeek([g EXCEPT !.S[m] = S2, !.m = m + 1])
-                  ELSE [g EXCEPT !.S[m] = S2]
-
-Seek(g) == IF Case.kind = "serial" THEN SerialSeek(g) ELSE LineSeek(g)
-
-InitG == [S |-> [m \in 1..NM |-> InitS(MCase(m))], sig |-> NoSig, m |-> 1, k |-> 0, started |-> 1,
-          nstopped |-> 0, keep |-> Case.allAgree, yielded |-> <<>>, pc |-> "run"]
+NM == NMof(Case)
 
 Init == /\ tid \in 1..Len(Traces)
-        /\ G = (IF Traces[tid].kind = "serial" THEN SerialSeek(InitG) ELSE LineSeek(InitG))  \* Case is not usable before tid is set: see Init2
+        /\ G = StartG(Traces[tid])
         /\ i = 1 /\ verdict = "run" /\ detail = <<>>
 
-\* ---- one recorded _consider_line call -----------------------------------------------------------------
 Consume ==
   /\ verdict = "run" /\ i <= Len(Case.events)
   /\ LET ev == Case.events[i] IN
@@ -102,19 +28,12 @@ Consume ==
        ELSE IF ev.m # G.m THEN verdict' = "schedule_member" /\ detail' = <<G.m, G.k>> /\ UNCHANGED <<G, i>>
        ELSE LET m == G.m
                 before == G.S[m]
-                E == Step(MCase(m), before)
+                E == Step(MCaseOf(Case, m), before)
                 d == Diff(E, ev, before)
             IN IF d # "ok" THEN verdict' = d /\ detail' = <<m, Expected(E, d)>> /\ UNCHANGED <<G, i>>
-               ELSE LET ret == Len(E.returned) > Len(before.returned)
-                        g1 == [G EXCEPT !.S[m] = ClearSig(E), !.sig = MergeSig(G.sig, E.st.sig)]
-                        g2 == IF Case.kind = "serial" THEN g1
-                              ELSE [g1 EXCEPT !.m = m + 1,
-                                              !.nstopped = IF E.st.stopped THEN @ + 1 ELSE @,
-                                              !.keep = IF Case.allAgree THEN @ /\ ret ELSE @ \/ ret]
-                    IN G' = Seek(g2) /\ i' = i + 1 /\ UNCHANGED <<verdict, detail>>
+               ELSE G' = AfterStep(Case, G, E) /\ i' = i + 1 /\ UNCHANGED <<verdict, detail>>
   /\ UNCHANGED tid
 
-\* ---- after the last event --------------------------------------------------------------------------------
 FinalMemberDiff(m) ==
   LET f == Case.final.members[m]  S == G.S[m] IN
     IF f.valid # S.st.valid THEN "final_valid"
@@ -123,12 +42,11 @@ FinalMemberDiff(m) ==
     ELSE IF f.scan_count # S.st.scanCount THEN "final_scan_count"
     ELSE IF ~VarsEq(f.vars, NormVars(S.st.vars)) THEN "final_vars"
     ELSE "ok"
-Started == IF Case.kind = "serial" THEN G.started ELSE NM
+Started == StartedOf(Case, G)
 FirstBad == IF \E m \in 1..Started : FinalMemberDiff(m) # "ok"
               THEN CHOOSE m \in 1..Started : FinalMemberDiff(m) # "ok" /\ \A x \in 1..(m - 1) : FinalMemberDiff(x) = "ok"
               ELSE 0
-\* C04: the run's verdict is the conjunction of its members'
-AllValid == \A m \in 1..Started : G.S[m].st.valid
+AllValid == AllValidOf(Case, G)
 Finish ==
   /\ verdict = "run" /\ i = Len(Case.events) + 1
   /\ verdict' = IF G.pc # "end" THEN "missing_event"
@@ -147,13 +65,9 @@ Next == Consume \/ Finish
 Spec == Init /\ [][Next]_gvars
 
 \* ---- properties of the joint machine, evaluated in every state of every validated run -------------------
-\* a member that fail_all() reached stays invalid; validity never comes back
 GroupValidityMonotone == [][\A m \in 1..NM : G'.S[m].st.valid => G.S[m].st.valid]_gvars
-\* once stop_all() has been noted no member considers another record
 StopAllIsFinal == [][(Case.coordinated /\ G.sig.stop) => \A m \in 1..NM : G'.S[m].st.scanCount = G.S[m].st.scanCount]_gvars
-\* the records handed to the caller are in file order, each once
 YieldedInOrder == Increasing(G.yielded)
-\* the coordinator never goes back
 CursorMonotone == [][G'.k > G.k \/ (G'.k = G.k /\ G'.m >= G.m) \/ Case.kind = "serial"]_gvars
 
 Emit == verdict # "run" =>
